@@ -703,6 +703,11 @@ func (c *Ctx) checkLSTMRoles(oi *opInfo, gate map[int]*ssa.Call, exs map[*ssa.Fu
 
 func (c *Ctx) checkGRURoles(oi *opInfo, gate map[int]*ssa.Call) {
 	apply := oi.methods["Apply"]
+	if gate[0] == nil || gate[1] == nil || gate[2] == nil {
+		// the gate computations were not recognised (reported by R12:P3 above); nothing to attach the roles to
+		c.undecided("R12", "R12:P4:GRU:state-update", c.pos(apply.Pos()), "the three gate computations are not recognised, so the roles of z, r and the candidate cannot be read structurally")
+		return
+	}
 	zt, rt, ht := resultOfCall(gate[0], 0), resultOfCall(gate[1], 0), resultOfCall(gate[2], 0)
 	key := "R12:P4:GRU:state-update"
 	var upd *ssa.Call
